@@ -76,4 +76,8 @@ _normalize_eq_terms(terms, scalar_types) := [terms[1], terms[2]] if {
 _normalize_eq_terms(terms, scalar_types) := [terms[2], terms[1]] if {
 	terms[1].type in scalar_types
 	not ast.is_wildcard(terms[2])
+
+	# two scalars (1 == 2) are covered by the clause above: both clauses matching
+	# is a conflict that aborts the evaluation
+	not terms[2].type in scalar_types
 }
